@@ -341,7 +341,7 @@ func checkStreamReaderFullRead(c *core.Ctx, l *core.Ledger) {
 				return
 			}
 			fld, _ := core.LoadedField(ld)
-			if fld == nil || fld.Name() != "reader" || core.TypeLabel(fld.Type()) != "io.Reader" {
+			if fld == nil || core.FieldName(fld) != "reader" || core.TypeLabel(fld.Type()) != "io.Reader" {
 				return
 			}
 			n++
